@@ -548,12 +548,12 @@ PROGRAMS = {"*": [["universal"]],
             "/early": [["respond", 200, [["content-length", "5"]], ["early"]]],
             # WebSocket requests the application denies while its coroutine lives on
             "/deny": [["recv"], ["send", {"type": "websocket.close"}, "tolerate"],
-                      ["sleep", 100.0]],
+                      ["sleep", 20.0]],
             "/deny_http": [["recv"],
                            ["send", {"type": "websocket.http.response.start", "status": 401,
                                      "headers": [["content-length", "2"]]}, "tolerate"],
                            ["send", {"type": "websocket.http.response.body", "body": "no"},
-                            "tolerate"], ["sleep", 100.0]]}
+                            "tolerate"], ["sleep", 20.0]]}
 
 # ---- "odd" inputs: octets and volumes that real peers (or hostile ones) can put into fields
 # the grammars above keep well-formed.  Only the generic part of the oracle applies: no
@@ -562,7 +562,12 @@ HIGH = [b"\xe9", b"\xff\xfe", b"caf\xc3\xa9", b"\x80"]
 ODD_WHAT = ["h2_method", "h2_scheme", "h2_authority", "h2_value", "h2_path", "h2_priority_flood",
             "ws_connection", "ws_extensions", "ws_protocol", "ws_key", "ws_version", "ws_origin",
             "ws_denied_then_data", "ws_denied_http_then_data", "h1_method", "h1_query",
-            "h1_host", "h1_value", "h1_upgrade"]
+            "h1_host", "h1_value", "h1_upgrade",
+            # the WebSocket handshake fields over HTTP/2 (extended CONNECT), odd :protocol values,
+            # other request-target forms
+            "ws2_extensions", "ws2_protocol", "ws2_version", "ws2_origin", "ws2_colon_protocol",
+            "ws2_denied_then_data", "h2_empty_path", "h2_relative_path", "h1_connect",
+            "h1_absolute", "h1_asterisk"]
 
 
 @st.composite
@@ -574,6 +579,27 @@ def odd_case(draw: Any) -> Dict[str, Any]:
 
 def odd_bytes(case: Dict[str, Any]) -> bytes:
     what, hi, n = case["what"], HIGH[case["octets"]], case["n"]
+    if what.startswith("ws2_"):
+        b = H2Builder()
+        b.request(1, b"/w", b"POST", b"witness-one")
+        path = b"/deny" if what == "ws2_denied_then_data" else b"/ws"
+        hs = [(b":method", b"CONNECT"), (b":protocol", b"websocket"), (b":scheme", b"http"),
+              (b":authority", b"example.com"), (b":path", path),
+              (b"sec-websocket-version", b"13")]
+        if what == "ws2_extensions":
+            hs.append((b"sec-websocket-extensions", b"permessage-deflate; x=" + hi))
+        elif what == "ws2_protocol":
+            hs.append((b"sec-websocket-protocol", b"chat, caf" + hi))
+        elif what == "ws2_version":
+            hs[5] = (b"sec-websocket-version", b"13" + hi)
+        elif what == "ws2_origin":
+            hs.append((b"origin", b"http://caf" + hi + b".example"))
+        elif what == "ws2_colon_protocol":
+            hs[1] = (b":protocol", [b"", b"webs" + hi, b"WebSocket", b"h2c"][n % 4])
+        b.headers(3, hs, end_stream=False)
+        b.data(3, b"".join(message_frames("text", b"carried on", [])) + close_frame(1000))
+        b.request(5, b"/w", b"POST", b"witness-two")
+        return bytes(b.out)
     if what.startswith("h2_"):
         b = H2Builder()
         b.request(1, b"/w", b"POST", b"witness-one")
@@ -588,6 +614,10 @@ def odd_bytes(case: Dict[str, Any]) -> bytes:
             hs[b":authority"] = b"caf" + hi + b".example"
         elif what == "h2_path":
             hs[b":path"] = b"/o" + hi + b"?q=" + hi
+        elif what == "h2_empty_path":
+            hs[b":path"] = b""
+        elif what == "h2_relative_path":
+            hs[b":path"] = [b"o", b"?q=1", b"//o", b"http://example.com/o"][n % 4]
         elif what == "h2_value":
             extra = [(b"x-odd", b"v" + hi), (b"cookie", hi), (b"user-agent", hi * 3)]
         if what == "h2_priority_flood":
@@ -624,6 +654,9 @@ def odd_bytes(case: Dict[str, Any]) -> bytes:
            "h1_host": b"GET /o HTTP/1.1\r\nHost: caf" + hi + b".example\r\n\r\n",
            "h1_value": b"GET /o HTTP/1.1\r\nHost: x\r\nUser-Agent: " + hi + b"\r\nCookie: "
                        + hi + b"\r\n\r\n",
+           "h1_connect": b"CONNECT example.com:443 HTTP/1.1\r\nHost: example.com:443\r\n\r\n",
+           "h1_absolute": b"GET http://example.com/o?q=1 HTTP/1.1\r\nHost: example.com\r\n\r\n",
+           "h1_asterisk": b"OPTIONS * HTTP/1.1\r\nHost: x\r\n\r\n",
            "h1_upgrade": b"GET /o HTTP/1.1\r\nHost: x\r\nConnection: Upgrade, HTTP2-Settings"
                          b"\r\nUpgrade: h2c" + hi + b"\r\nHTTP2-Settings: " + hi + b"\r\n\r\n"}
     return req[what] + b"GET /w HTTP/1.1\r\nHost: x\r\n\r\n"
@@ -702,6 +735,8 @@ def judge(case: Dict[str, Any], obs: Any) -> Dict[str, Any]:
     if conn.handler_done_at is None:
         raise Violation("handler_never_terminates", f"alive at the end: {obs.alive}", **tag)
     for inst in obs.instances:
+        if case.get("what") == "h1_connect":
+            break  # the echo application's 200 + content-length is itself illegal for CONNECT
         if inst.exit and inst.exit.startswith("raise") and "Cancel" not in inst.exit:
             raise Violation("application_broken_by_input", f"universal application raised: "
                             f"{inst.exit} for scope {inst.scope.get('type')} "
